@@ -184,6 +184,7 @@ impl Expansion<'_> {
                 Ok(quote! {
                     #[allow(clippy::unused_unit)]
                     #[allow(deprecated)] // omit warnings on deprecated fields/variants
+                    #[allow(unreachable_code)] // omit warnings for `!` and other unreachable types
                     #[automatically_derived]
                     impl #impl_gens derive_more::core::convert::From<#r #lf #m #input_ident #ty_gens>
                      for ( #( #r #lf #m #tys ),* ) #where_clause
